@@ -1,68 +1,199 @@
 // factgen translator "gc" (property C17): regenerates lean/Galaxy/Generated/Gc.lean from the CURRENT text of
-// pkg/gc/flannel_gc.go:
+// pkg/gc/flannel_gc.go.  Every function is first NORMALISED (factgen/semnorm, see /verif/harmless/NORMALISE.md:
+// alpha-renaming, inlining of single-assignment locals and of `x, err := f()` results, conditions as sets of conjuncts,
+// guard clauses ≡ nested ifs, De Morgan, switch ≡ if-chain, log statements and error texts dropped); the facts are
+// read off the normal form:
 //
-//   - the container state strings that count as "gone" (ContainerExited / ContainerDead as used in shouldCleanup),
-//   - the decision table of shouldCleanup as the list of enclosing conditions of every `return true`
-//     (a changed, added or removed path changes the table and breaks the pinned fact theorem),
-//   - shouldCleanupFailsSafe: every `return true` that lies on an error branch lies under a not-found test, and the
-//     function falls through to `return false`,
-//   - the skip / extraction shape of the two file collectors and of removeLeakyStateFile.
+//   - the container state strings that count as "gone" (the constants State.Status is compared with on a `return true` path),
+//   - the decision table of shouldCleanup: for every `return true` the SET of conditions under which it is reached
+//     (a changed, added or removed path changes the table and breaks the pinned fact theorem), and the vetoes
+//     (`return false` inside a loop) that precede it,
+//   - shouldCleanupFailsSafe: every `return true` reached with a failed inspect / pod lookup lies under a not-found
+//     test, and the function falls through to `return false`,
+//   - the collectors: the single removal per collector with the exact set of conditions guarding it, the container
+//     id expression, callback before an unconditional remove, no way to leave a round early.
 //
-// Syntactic only (go/ast, stdlib).  Constants that cannot be extracted make the translator fail; structural facts
-// that no longer hold are emitted as `false` with the reason.
+// Constants that cannot be extracted make the translator fail; structural facts that no longer hold are emitted as
+// `false` with the reason.
 package main
 
 import (
 	"fmt"
 	"go/ast"
 	"go/token"
+	"regexp"
+	"sort"
 	"strings"
 
 	"factgen/fg"
+	"factgen/semnorm"
 )
 
 func main() { fg.Run("gc", gen) }
 
 func squash(s string) string { return strings.Join(strings.Fields(s), " ") }
 
-// truePaths walks a statement list and records, for every `return true`, the conditions of the enclosing if
-// statements ("!(" + cond + ")" for an else branch; "init; cond" when the if has an init statement; "for …" for loops).
-func truePaths(p *fg.Parsed, list []ast.Stmt, ctx []string, out *[][]string, falses *int) {
-	for _, s := range list {
-		switch x := s.(type) {
-		case *ast.ReturnStmt:
-			if len(x.Results) == 1 {
-				switch p.Src(x.Results[0]) {
-				case "true":
-					*out = append(*out, append([]string(nil), ctx...))
-				case "false":
-					*falses++
-				default:
-					*out = append(*out, append(append([]string(nil), ctx...), "return "+squash(p.Src(x.Results[0]))))
-				}
-			}
-		case *ast.IfStmt:
-			cond := squash(p.Src(x.Cond))
-			if x.Init != nil {
-				cond = squash(p.Src(x.Init)) + "; " + cond
-			}
-			truePaths(p, x.Body.List, append(append([]string(nil), ctx...), cond), out, falses)
-			switch e := x.Else.(type) {
-			case *ast.BlockStmt:
-				truePaths(p, e.List, append(append([]string(nil), ctx...), "!("+cond+")"), out, falses)
-			case *ast.IfStmt:
-				truePaths(p, []ast.Stmt{e}, append(append([]string(nil), ctx...), "!("+cond+")"), out, falses)
-			}
-		case *ast.ForStmt:
-			truePaths(p, x.Body.List, append(append([]string(nil), ctx...), "for"), out, falses)
-		case *ast.RangeStmt:
-			truePaths(p, x.Body.List, append(append([]string(nil), ctx...), "for range "+squash(p.Src(x.X))), out, falses)
-		case *ast.BlockStmt:
-			truePaths(p, x.List, ctx, out, falses)
-		case *ast.SwitchStmt, *ast.TypeSwitchStmt, *ast.SelectStmt, *ast.LabeledStmt, *ast.BranchStmt:
-			*out = append(*out, append(append([]string(nil), ctx...), "untranslated control flow: "+squash(p.Src(s))))
+// abbreviations of the inlined runtime calls, longest first (readability of the pinned table only)
+func abbreviate(s string) string {
+	cri := "recv.dockerCli.ContainedInspectContainer($0)"
+	pod := "recv.kubeCli.CoreV1().Pods(CRI#0.Annotations[SandboxNamespace]).Get(context.Background(), CRI#0.Annotations[SandboxName], metav1.GetOptions{})"
+	s = strings.ReplaceAll(s, cri, "CRI")
+	s = strings.ReplaceAll(s, pod, "POD")
+	s = strings.ReplaceAll(s, "recv.dockerCli.DockerInspectContainer($0)", "DOCKER")
+	return s
+}
+
+func has(set []string, x string) bool {
+	for _, s := range set {
+		if s == x {
+			return true
 		}
 	}
+	return false
+}
+
+func sameSet(a, b []string) bool {
+	if len(a) != len(b) {
+		return false
+	}
+	for _, x := range a {
+		if !has(b, x) {
+			return false
+		}
+	}
+	return true
+}
+
+func leanList(xs []string) string {
+	var q []string
+	for _, x := range xs {
+		q = append(q, fg.LeanStr(x))
+	}
+	return "[" + strings.Join(q, ",\n   ") + "]"
+}
+
+// decision is what gen reads off shouldCleanup.
+type decision struct {
+	states                []string   // names of the constants State.Status is compared with
+	truePaths             [][]string // sorted
+	vetoes                [][]string // loops + conditions of `return false` inside a loop
+	failSafe, guardsNil   bool
+	why                   string
+	env                   string
+	boolOnly, endsInFalse bool
+}
+
+var (
+	reState = regexp.MustCompile(`DOCKER#0\.State\.Status == (\w+)`)
+	reEnv   = regexp.MustCompile(`^os\.Getenv\("([^"]+)"\) != ""$`)
+)
+
+func analyseShouldCleanup(fset *token.FileSet, sc *ast.FuncDecl) (*decision, error) {
+	d := &decision{failSafe: true}
+	es := semnorm.Analyze(fset, sc, nil)
+	seenState := map[string]bool{}
+	for _, e := range es {
+		var conds []string
+		for _, c := range e.Conds {
+			conds = append(conds, abbreviate(c))
+		}
+		sort.Strings(conds)
+		if strings.HasPrefix(e.Text, "return true") {
+			for _, c := range conds {
+				for _, m := range reState.FindAllStringSubmatch(c, -1) {
+					if !seenState[m[1]] {
+						seenState[m[1]] = true
+						d.states = append(d.states, m[1])
+					}
+				}
+			}
+		}
+		switch {
+		case e.Text == "return true" && len(e.Loops) == 0:
+			d.truePaths = append(d.truePaths, conds)
+			onErr, notFound := false, false
+			for _, c := range conds {
+				if c == "DOCKER#1 != nil" || c == "CRI#1 != nil" || c == "POD#1 != nil" {
+					onErr = true
+				}
+				if c == "DOCKER#1.(docker.ContainerNotFoundError)#1" || c == "status.FromError(CRI#1)#0.Code() == codes.NotFound" ||
+					c == "apierrors.IsNotFound(POD#1)" {
+					notFound = true
+				}
+				if reState.MatchString(c) && has(conds, "DOCKER#0.State != nil") {
+					d.guardsNil = true
+				}
+				if m := reEnv.FindStringSubmatch(c); m != nil {
+					d.env = m[1]
+				}
+			}
+			if onErr && !notFound {
+				d.failSafe = false
+				d.why = "a `return true` is reached after a failed call without a not-found test: " + strings.Join(conds, " && ")
+			}
+		case e.Text == "return false" && len(e.Loops) > 0:
+			var l []string
+			for _, x := range e.Loops {
+				l = append(l, abbreviate(x))
+			}
+			d.vetoes = append(d.vetoes, append(l, conds...))
+		case e.Text == "return false":
+		default:
+			// any other effect (a `return true` inside a loop, a returned expression, an assignment, an effectful call)
+			d.truePaths = append(d.truePaths, append(conds, "EFFECT "+abbreviate(e.String())))
+			d.failSafe = false
+			d.why = "shouldCleanup has an effect other than `return true` / `return false`: " + abbreviate(e.String())
+		}
+	}
+	sort.Slice(d.truePaths, func(i, j int) bool {
+		return strings.Join(d.truePaths[i], "\x00") < strings.Join(d.truePaths[j], "\x00")
+	})
+	sort.Strings(d.states)
+	last, ok := sc.Body.List[len(sc.Body.List)-1].(*ast.ReturnStmt)
+	d.endsInFalse = ok && len(last.Results) == 1 && squash(exprText(fset, last.Results[0])) == "false"
+	if !d.endsInFalse {
+		d.failSafe = false
+		d.why = "the function does not end with `return false`"
+	}
+	d.boolOnly = sc.Type.Results != nil && len(sc.Type.Results.List) == 1 && len(sc.Type.Results.List[0].Names) <= 1 &&
+		exprText(fset, sc.Type.Results.List[0].Type) == "bool"
+	if len(d.states) == 0 {
+		return nil, fmt.Errorf("shouldCleanup: no `return true` path compares the docker State.Status with a constant")
+	}
+	if d.env == "" {
+		return nil, fmt.Errorf("shouldCleanup: no path is selected by `os.Getenv(\"…\") != \"\"` (runtime switch)")
+	}
+	return d, nil
+}
+
+func exprText(fset *token.FileSet, n ast.Node) string {
+	p := &fg.Parsed{Fset: fset}
+	return p.Src(n)
+}
+
+// sweep is what gen reads off one collector.
+type sweep struct {
+	removal *semnorm.Effect // the only effect besides `return nil`
+	others  []string
+	early   bool // an effect that leaves the round (return / break / goto / panic inside a loop)
+}
+
+func analyseSweep(fset *token.FileSet, fd *ast.FuncDecl) sweep {
+	var s sweep
+	for _, e := range semnorm.Analyze(fset, fd, nil) {
+		e := e
+		switch {
+		case len(e.Loops) == 0 && e.Text == "return nil":
+		case len(e.Loops) > 0 && (strings.HasPrefix(e.Text, "return") || strings.HasPrefix(e.Text, "break") ||
+			strings.HasPrefix(e.Text, "goto") || strings.HasPrefix(e.Text, "panic(")):
+			s.early = true
+		case s.removal == nil && (strings.Contains(e.Text, "removeLeaky") || strings.Contains(e.Text, "os.Remove")):
+			s.removal = &e
+		default:
+			s.others = append(s.others, e.String())
+		}
+	}
+	return s
 }
 
 func gen(repo string) (map[string]string, error) {
@@ -71,14 +202,14 @@ func gen(repo string) (map[string]string, error) {
 		return nil, err
 	}
 	var b strings.Builder
-	b.WriteString(fg.Header("GC decision table and collector shape (C17)", "pkg/gc/flannel_gc.go"))
+	b.WriteString(fg.Header("GC decision table and collector shape (C17), read off the normalised functions", "pkg/gc/flannel_gc.go"))
 	b.WriteString("namespace Galaxy.Generated.Gc\n\n")
 	def := func(name, typ, val, comment string) {
 		fmt.Fprintf(&b, "/-- %s -/\ndef %s : %s := %s\n\n", comment, name, typ, val)
 	}
 	fact := func(name string, holds bool, comment, why string) {
 		if !holds {
-			comment += " — NOT FOUND in the current source: " + why
+			comment += " — NOT FOUND in the current source: " + squash(why)
 		}
 		def(name, "Bool", fg.LeanBool(holds), comment)
 	}
@@ -87,182 +218,110 @@ func gen(repo string) (map[string]string, error) {
 	if err != nil {
 		return nil, err
 	}
-	// ---- the docker states that mean "gone": the `c.State.Status == X || …` disjunction guarding a `return true`
-	var states []string
-	var stateCond string
-	ast.Inspect(sc.Body, func(n ast.Node) bool {
-		ifs, ok := n.(*ast.IfStmt)
-		if !ok || !strings.Contains(p.Src(ifs.Cond), "State.Status ==") {
-			return true
-		}
-		stateCond = squash(p.Src(ifs.Cond))
-		ast.Inspect(ifs.Cond, func(m ast.Node) bool {
-			be, ok := m.(*ast.BinaryExpr)
-			if ok && be.Op == token.EQL && strings.HasSuffix(p.Src(be.X), "State.Status") {
-				states = append(states, p.Src(be.Y))
-			}
-			return true
-		})
-		return false
-	})
-	if len(states) == 0 {
-		return nil, fmt.Errorf("shouldCleanup: no `c.State.Status == <const>` test found")
+	d, err := analyseShouldCleanup(p.Fset, sc)
+	if err != nil {
+		return nil, err
 	}
 	var vals []string
-	for _, s := range states {
+	for _, s := range d.states {
 		v, err := p.ConstString(s)
 		if err != nil {
 			return nil, fmt.Errorf("shouldCleanup compares State.Status with %s, which is not a string constant of the file", s)
 		}
-		vals = append(vals, fg.LeanStr(v))
+		vals = append(vals, v)
 	}
-	def("exitedStates", "List String", "["+strings.Join(vals, ", ")+"]", "docker states for which shouldCleanup answers true: "+stateCond)
-	fact("stateTestGuardsNilState", strings.HasPrefix(stateCond, "c.State != nil && ("),
-		"the state test is `c.State != nil && (…)`", stateCond)
-
-	// ---- decision table
-	var paths [][]string
-	falses := 0
-	truePaths(p, sc.Body.List, nil, &paths, &falses)
+	sort.Strings(vals)
+	def("exitedStates", "List String", leanList(vals), "docker states for which shouldCleanup answers true (the constants State.Status is compared with on a `return true` path), sorted")
+	fact("stateTestGuardsNilState", d.guardsNil, "the state test is reached only under `c.State != nil`", "no `State != nil` conjunct on the state path")
 	var rows []string
-	for _, pa := range paths {
-		var q []string
-		for _, c := range pa {
-			q = append(q, fg.LeanStr(c))
-		}
-		rows = append(rows, "  ["+strings.Join(q, ",\n   ")+"]")
+	for _, pa := range d.truePaths {
+		rows = append(rows, "  "+leanList(pa))
 	}
 	def("cleanupTruePaths", "List (List String)", "[\n"+strings.Join(rows, ",\n")+"]",
-		"shouldCleanup: for every `return true`, the conditions of the enclosing if / else / loop statements, outermost first")
-	// fail-safe: a `return true` under an `err != nil` test must also be under a not-found test
-	failSafe := true
-	why := ""
-	for _, pa := range paths {
-		onErr, notFound, bad := false, false, false
-		for _, c := range pa {
-			if strings.Contains(c, "err != nil") && !strings.HasPrefix(c, "!(") {
-				onErr = true
-			}
-			if strings.Contains(c, "docker.ContainerNotFoundError") || strings.Contains(c, "codes.NotFound") ||
-				strings.Contains(c, "apierrors.IsNotFound(err)") {
-				if !strings.HasPrefix(c, "!(") {
-					notFound = true
-				}
-			}
-			if strings.HasPrefix(c, "untranslated") || strings.HasPrefix(c, "return ") {
-				bad = true
-			}
-		}
-		if bad || (onErr && !notFound) {
-			failSafe = false
-			why = strings.Join(pa, " / ")
-		}
+		"shouldCleanup: for every `return true`, the sorted SET of conditions under which it is reached (normal form: DOCKER / CRI = the inspect call, POD = the pod lookup, #0 / #1 = its results; names, nesting, guard clauses and order of the branches do not matter)")
+	rows = nil
+	for _, v := range d.vetoes {
+		rows = append(rows, "  "+leanList(v))
 	}
-	last, ok := sc.Body.List[len(sc.Body.List)-1].(*ast.ReturnStmt)
-	endsFalse := ok && len(last.Results) == 1 && p.Src(last.Results[0]) == "false"
-	if !endsFalse {
-		failSafe = false
-		why = "the function does not end with `return false`"
-	}
-	fact("shouldCleanupFailsSafe", failSafe,
-		"shouldCleanup: every `return true` on an error branch lies under a not-found test (docker.ContainerNotFoundError / codes.NotFound / apierrors.IsNotFound) and the function falls through to `return false`",
-		why)
-	// the runtime switch
-	envName := ""
-	if len(sc.Body.List) > 0 {
-		if ifs, ok := sc.Body.List[0].(*ast.IfStmt); ok {
-			c := squash(p.Src(ifs.Cond))
-			if strings.HasPrefix(c, `os.Getenv("`) && strings.HasSuffix(c, `") != ""`) {
-				envName = c[len(`os.Getenv("`) : len(c)-len(`") != ""`)]
-			}
-		}
-	}
-	if envName == "" {
-		return nil, fmt.Errorf("shouldCleanup: first statement is not `if os.Getenv(\"…\") != \"\"` (runtime switch)")
-	}
-	def("containerdEnv", "String", fg.LeanStr(envName), "environment variable that selects the containerd (CRI) branch")
+	def("cleanupVetoes", "List (List String)", "[\n"+strings.Join(rows, ",\n")+"]",
+		"shouldCleanup: `return false` inside a loop: the loop and the conditions (a waiting or running container vetoes the clean-up)")
+	fact("shouldCleanupFailsSafe", d.failSafe,
+		"shouldCleanup: every `return true` reached after a failed inspect call / pod lookup lies under a not-found test (docker.ContainerNotFoundError / codes.NotFound / apierrors.IsNotFound), there is no other effect, and the function falls through to `return false`",
+		d.why)
+	def("containerdEnv", "String", fg.LeanStr(d.env), "environment variable that selects the containerd (CRI) branch")
+	fact("shouldCleanupReturnsOnlyBool", d.boolOnly, "shouldCleanup(cid string) bool — no error result that a collector could propagate",
+		"result list is now "+squash(p.Src(sc.Type)))
 
 	// ---- collectors
 	ci, err := p.Fn("flannelGC", "cleanupIP")
 	if err != nil {
 		return nil, err
 	}
-	cis := squash(p.Src(ci.Body))
-	fact("ipSweepSkipsDirsAndNonIPNames", strings.Contains(cis, "if fi.IsDir() || len(net.ParseIP(fi.Name())) == 0 { continue }"),
-		"cleanupIP: `if fi.IsDir() || len(net.ParseIP(fi.Name())) == 0 { continue }`", "skip test changed")
-	fact("ipSweepSkipsUnreadableOrEmpty", strings.Contains(cis, "if err != nil || len(containerIdData) == 0 { continue }"),
-		"cleanupIP: `if err != nil || len(containerIdData) == 0 { continue }` after ReadFile", "skip test changed")
-	fact("ipSweepCidIsFirstLineTrimmed", strings.Contains(cis, `parts := strings.Split(string(containerIdData), "\n") containerId := strings.TrimSpace(parts[0])`),
-		"cleanupIP: container id = TrimSpace(first line of the file)", "extraction changed")
-	fact("ipSweepRemovesOnlyIfShouldCleanup", strings.Contains(cis, "if gc.shouldCleanup(containerId) { removeLeakyIPFile(ipFile, containerId) }") &&
-		strings.Count(cis, "removeLeakyIPFile(") == 1 && strings.Count(cis, "os.Remove") == 0,
-		"cleanupIP: the only removal is `if gc.shouldCleanup(containerId) { removeLeakyIPFile(ipFile, containerId) }`", "removal site changed")
-	fact("ipSweepSkipsMissingDir", strings.Contains(cis, "fis, err := ioutil.ReadDir(dir) if err != nil { if os.IsNotExist(err) { continue }") &&
-		strings.Contains(cis, "for _, dir := range gc.allocatedIPDir"),
-		"cleanupIP: every directory of allocatedIPDir, unreadable ones skipped", "loop header changed")
-	// no entry (and no directory) can end the round for the others: the collectors' loops contain no return / break /
-	// goto / panic, and shouldCleanup has no error result a caller could propagate
-	noEarlyExit := func(fd *ast.FuncDecl) bool {
-		ok := true
-		for _, st := range fd.Body.List {
-			loop, isLoop := st.(*ast.RangeStmt)
-			if !isLoop {
-				continue
-			}
-			ast.Inspect(loop.Body, func(n ast.Node) bool {
-				switch x := n.(type) {
-				case *ast.ReturnStmt:
-					ok = false
-				case *ast.BranchStmt:
-					if x.Tok != token.CONTINUE || x.Label != nil {
-						ok = false
-					}
-				case *ast.CallExpr:
-					if id, isID := x.Fun.(*ast.Ident); isID && id.Name == "panic" {
-						ok = false
-					}
-				case *ast.FuncLit:
-					return false
-				}
-				return true
-			})
-		}
-		return ok
+	is := analyseSweep(p.Fset, ci)
+	dir := "elem(recv.allocatedIPDir)"
+	fi := "elem(ioutil.ReadDir(" + dir + ")#0)"
+	file := "filepath.Join(" + dir + ", " + fi + ".Name())"
+	data := "ioutil.ReadFile(" + file + ")"
+	cid := "strings.TrimSpace(strings.Split(string(" + data + "#0), \"\\n\")[0])"
+	var rc []string
+	rtext, rloops := "", ""
+	if is.removal != nil {
+		rc, rtext, rloops = is.removal.Conds, is.removal.Text, strings.Join(is.removal.Loops, " > ")
 	}
-	boolOnly := sc.Type.Results != nil && len(sc.Type.Results.List) == 1 && len(sc.Type.Results.List[0].Names) <= 1 &&
-		p.Src(sc.Type.Results.List[0].Type) == "bool"
-	fact("shouldCleanupReturnsOnlyBool", boolOnly, "shouldCleanup(cid string) bool — no error result that a collector could propagate",
-		"result list is now "+squash(p.Src(sc.Type)))
+	nf := "normal form of the removal: [" + rloops + "] {" + strings.Join(rc, " && ") + "} " + rtext + "; other effects: " + strings.Join(is.others, " ;; ")
+	fact("ipSweepSkipsDirsAndNonIPNames", has(rc, "!"+fi+".IsDir()") && has(rc, "len(net.ParseIP("+fi+".Name())) != 0"),
+		"cleanupIP: an entry is considered only if it is not a directory and its name parses as an IP (`if fi.IsDir() || len(net.ParseIP(fi.Name())) == 0 { continue }`)", nf)
+	fact("ipSweepSkipsUnreadableOrEmpty", has(rc, data+"#1 == nil") && has(rc, "len("+data+"#0) != 0"),
+		"cleanupIP: … and the file can be read and is not empty", nf)
+	fact("ipSweepCidIsFirstLineTrimmed", rtext == "removeLeakyIPFile("+file+", "+cid+")" && has(rc, "recv.shouldCleanup("+cid+")"),
+		"cleanupIP: container id = TrimSpace(first line of the file); the file removed is the one read", nf)
+	fact("ipSweepRemovesOnlyIfShouldCleanup", is.removal != nil && len(is.others) == 0 &&
+		sameSet(rc, []string{"!" + fi + ".IsDir()", "len(net.ParseIP(" + fi + ".Name())) != 0", data + "#1 == nil", "len(" + data + "#0) != 0",
+			"ioutil.ReadDir(" + dir + ")#1 == nil", "recv.shouldCleanup(" + cid + ")"}),
+		"cleanupIP: the only effect is the removal, guarded by exactly: readable directory, not a sub-directory, IP name, readable non-empty file, shouldCleanup(container id)", nf)
+	fact("ipSweepSkipsMissingDir", rloops == "range recv.allocatedIPDir > range ioutil.ReadDir("+dir+")#0" && has(rc, "ioutil.ReadDir("+dir+")#1 == nil"),
+		"cleanupIP: every directory of allocatedIPDir, unreadable ones skipped", nf)
 	cg, err := p.Fn("flannelGC", "cleanupGCDirs")
 	if err != nil {
 		return nil, err
 	}
-	cgs := squash(p.Src(cg.Body))
-	fact("gcSweepSkipsDirs", strings.Contains(cgs, "if fi.IsDir() { continue }"), "cleanupGCDirs: `if fi.IsDir() { continue }`", "skip changed")
-	fact("gcSweepRemovesOnlyIfShouldCleanup", strings.Contains(cgs, "if gc.shouldCleanup(fi.Name()) { gc.removeLeakyStateFile(filepath.Join(dir, fi.Name())) }") &&
-		strings.Count(cgs, "removeLeakyStateFile(") == 1 && strings.Count(cgs, "os.Remove") == 0 && strings.Contains(cgs, "for _, dir := range gc.gcDirs"),
-		"cleanupGCDirs: the only removal is `if gc.shouldCleanup(fi.Name()) { gc.removeLeakyStateFile(…) }`, file name = container id", "removal site changed")
-	fact("sweepsNeverEndTheRoundEarly", noEarlyExit(ci) && noEarlyExit(cg),
-		"cleanupIP / cleanupGCDirs: the directory and entry loops contain no return, break, goto or panic (only `continue`): one entry's inspect error cannot keep the collector from the entries and directories after it",
+	gs := analyseSweep(p.Fset, cg)
+	gdir := "elem(recv.gcDirs)"
+	gfi := "elem(ioutil.ReadDir(" + gdir + ")#0)"
+	rc, rtext, rloops = nil, "", ""
+	if gs.removal != nil {
+		rc, rtext, rloops = gs.removal.Conds, gs.removal.Text, strings.Join(gs.removal.Loops, " > ")
+	}
+	nf = "normal form of the removal: [" + rloops + "] {" + strings.Join(rc, " && ") + "} " + rtext + "; other effects: " + strings.Join(gs.others, " ;; ")
+	fact("gcSweepSkipsDirs", has(rc, "!"+gfi+".IsDir()"), "cleanupGCDirs: sub-directories are skipped (`if fi.IsDir() { continue }`)", nf)
+	fact("gcSweepRemovesOnlyIfShouldCleanup", gs.removal != nil && len(gs.others) == 0 &&
+		rtext == "recv.removeLeakyStateFile(filepath.Join("+gdir+", "+gfi+".Name()))" &&
+		rloops == "range recv.gcDirs > range ioutil.ReadDir("+gdir+")#0" &&
+		sameSet(rc, []string{"!" + gfi + ".IsDir()", "ioutil.ReadDir(" + gdir + ")#1 == nil", "recv.shouldCleanup(" + gfi + ".Name())"}),
+		"cleanupGCDirs: the only effect is removeLeakyStateFile(dir/name), for every directory of gcDirs, guarded by exactly: readable directory, not a sub-directory, shouldCleanup(file name)", nf)
+	fact("sweepsNeverEndTheRoundEarly", !is.early && !gs.early,
+		"cleanupIP / cleanupGCDirs: no return, break, goto or panic inside the directory and entry loops: one entry's inspect error cannot keep the collector from the entries and directories after it",
 		"a loop of cleanupIP or cleanupGCDirs can now be left early")
 	rl, err := p.Fn("flannelGC", "removeLeakyStateFile")
 	if err != nil {
 		return nil, err
 	}
-	okShape := len(rl.Body.List) == 2
-	if okShape {
-		first := squash(p.Src(rl.Body.List[0]))
-		second := squash(p.Src(rl.Body.List[1]))
-		okShape = strings.HasPrefix(first, "if err := gc.cleanPortFunc(filepath.Base(file)); err != nil {") && !strings.Contains(first, "return") &&
-			strings.HasPrefix(second, "if err := os.Remove(file);")
+	var rls []string
+	for _, e := range semnorm.Analyze(p.Fset, rl, nil) {
+		rls = append(rls, e.String())
 	}
-	fact("stateFileRemovedAfterCallbackWhateverItsResult", okShape,
-		"removeLeakyStateFile: cleanPortFunc(base name) first (its error is only logged), then os.Remove(file) unconditionally", "body changed")
+	fact("stateFileRemovedAfterCallbackWhateverItsResult",
+		len(rls) == 2 && rls[0] == "[] {} call recv.cleanPortFunc(filepath.Base($0))" && rls[1] == "[] {} call os.Remove($0)",
+		"removeLeakyStateFile: cleanPortFunc(base name) first (its error is only logged), then os.Remove(file) unconditionally", strings.Join(rls, " ;; "))
 	ri, err := p.Fn("", "removeLeakyIPFile")
 	if err != nil {
 		return nil, err
 	}
-	fact("ipFileRemovalIsOsRemove", strings.HasPrefix(squash(p.Src(ri.Body)), "{ if err := os.Remove(ipFile);"), "removeLeakyIPFile = os.Remove(ipFile)", "body changed")
+	rls = nil
+	for _, e := range semnorm.Analyze(p.Fset, ri, nil) {
+		rls = append(rls, e.String())
+	}
+	fact("ipFileRemovalIsOsRemove", len(rls) == 1 && rls[0] == "[] {} call os.Remove($0)", "removeLeakyIPFile = os.Remove(ipFile), unconditionally", strings.Join(rls, " ;; "))
 
 	b.WriteString("end Galaxy.Generated.Gc\n")
 	return map[string]string{"Gc.lean": b.String()}, nil
